@@ -30,6 +30,17 @@ CHECKS.update({
             "DESIGN.md section 4, C03"),
 })
 
+CHECKS.update({
+    "C12": ("schedule-controlled execution of the real pool code (Hypothesis-drawn interleavings) + real-process grid",
+            "The real Parallel.irun/pool_worker run under a deterministic baton scheduler whose choices Hypothesis draws and shrinks "
+            "(n<=12, pool<=4, max_tasks<=5, failing tasks, slow consumers); every schedule must deliver exactly the submitted ids with "
+            "the right payloads and terminate. A real multiprocessing grid can additionally confirm (never refute) a loss. Exploration of "
+            "interleavings, not exhaustive.",
+            "Trusted: vf/model/poolsim.py (scheduling points = queue ops, process start/exit, join); annet.parallel's mp/time/os names are "
+            "substituted inside the harness process only.",
+            "DESIGN.md section 4, C12"),
+})
+
 NOT_YET = {}
 
 
